@@ -374,6 +374,21 @@ fn language_job(ctx: &Ctx, job: usize, iters: u64) -> Stats {
             format!("[{}{}] {} {}", ops.join(", "), trailing(&mut rng, len), cs, rng.pick(&consts))
         };
         check_text(&mut st, &text);
+        // the comparison directly under a quantifier / negation / if (where an evaluator may treat
+        // it specially), small constants only
+        if rng.chance(1, 4) && !text.contains("2147483648") && !text.contains("922337203685477580") && !text.contains("1844674407370955161") {
+            let v = *rng.pick(&["a", "b", "c"]);
+            let wrapped = match rng.below(6) {
+                0 => format!("forall {} # {}", v, text),
+                1 => format!("exists {} # {}", v, text),
+                2 => format!("all {}, c # ({})", v, text),
+                3 => format!("-{}", text),
+                4 => format!("not ({})", text),
+                _ => format!("if {} then {} else -{}", v, text, text),
+            };
+            st.bump("comparisons_directly_under_a_quantifier_or_negation");
+            check_text(&mut st, &wrapped);
+        }
         // counting comparisons whose operands contain a fixed-point variable (the iterate must be
         // counted on both sides); non-convergent ones are skipped by the reference
         if rng.chance(1, 6) {
